@@ -65,6 +65,8 @@ class World(object):
         self._mid = 0
         self._pending_cid = None
         self.randint_value = 0
+        self.os_signals = []          # (virtual time, handler): process signals delivered while the loop sleeps in select()
+        self.woken = False
         self.select_result = []
         self.t0 = t0
         self._old_loop = None
@@ -175,6 +177,13 @@ class World(object):
 
     def close(self):
         try:
+            # the controller opens a REAL udp socket (auto-discovery); do not leak one descriptor per world
+            udp = getattr(getattr(self.arbiter, 'ctrl', None), 'udp_socket', None) if getattr(self, 'arbiter', None) is not None else None
+            if udp is not None:
+                try:
+                    udp.close()
+                except Exception:  # noqa
+                    pass
             if self.ioloop is not None:
                 try:
                     self.ioloop.close()
